@@ -322,6 +322,83 @@ def rule_who_may_free(ctx, ix):
         raise AnalysisError(f"only {n_sites} gc/free sites found in the package (expected the ones of _cffi_ownership.py)")
 
 
+def rule_lifetime(ctx, ix):
+    """The arrays live exactly as long as the C structure: the only way memory is ever returned is the
+    destructor of an `ffi.gc(ptr, free)` wrapper that is stored in the holder reachable from the weak-key
+    entry of the structure.  Anything that frees eagerly (`ffi.release`, a direct `free(...)` call, `del`
+    / pop / clear of the holder's wrappers) or ties the release to another object's death
+    (`weakref.finalize`, `__del__`, `atexit`) frees while the structure can still be referenced."""
+    ctx.rule("C13.lifetime", "memory is released only by gc-wrapper destructors held by the structure's weak-key entry", min_instances=4)
+    pk = [m for m in ix.modules if m.startswith("tensora.compile") or m == "tensora.tensor"]
+    n_gc = 0
+    for q, f in ix.funcs.items():
+        if f.module not in pk:
+            continue
+        rel = f"{ix.rel(f.module)}:{q.split(f.module + '.', 1)[-1]}"
+        if f.name in ("__del__",):
+            ctx.instance("C13.lifetime")
+            ctx.fail("C13.lifetime", f"{rel}", "a __del__ method in the tensor layer: release tied to this object's death, not the structure's")
+        for call in ix.calls_in(f):
+            t = u(call.func)
+            last = t.split(".")[-1]
+            if last == "gc":
+                n_gc += 1
+                ctx.instance("C13.lifetime")
+                key = f"{rel}:{u(call)[:70]}"
+                # the wrapper must end up in the holder of the structure's weak-key entry
+                connected = set()
+                for _ in range(4):
+                    for st in ast.walk(f.node):
+                        if isinstance(st, ast.Assign):
+                            t0 = st.targets[0]
+                            r0 = t0
+                            while isinstance(r0, ast.Subscript):
+                                r0 = r0.value
+                            if isinstance(t0, ast.Name) and "global_weakkeydict" in u(st.value):
+                                connected.add(t0.id)  # holder = global_weakkeydict[...] / .get(...)
+                            if isinstance(r0, ast.Name) and (r0.id == "global_weakkeydict" or r0.id in connected) and t0 is not r0 and isinstance(st.value, ast.Name):
+                                connected.add(st.value.id)  # holder[...] = N  /  global_weakkeydict[x] = N
+                holder_ok = False
+                for st in ast.walk(f.node):
+                    inside = any(x is call for x in ast.walk(st))
+                    if not inside:
+                        continue
+                    if isinstance(st, ast.Assign):
+                        r0 = st.targets[0]
+                        while isinstance(r0, ast.Subscript):
+                            r0 = r0.value
+                        if isinstance(r0, ast.Name) and r0 is not st.targets[0] and (r0.id in connected or r0.id == "global_weakkeydict"):
+                            holder_ok = True
+                    if isinstance(st, ast.Expr) and isinstance(st.value, ast.Call) and isinstance(st.value.func, ast.Attribute) and st.value.func.attr == "append":
+                        if isinstance(st.value.func.value, ast.Name) and st.value.func.value.id in connected:
+                            holder_ok = True
+                if len(call.args) == 2 and u(call.args[1]).split(".")[-1] == "free" and holder_ok:
+                    ctx.ok("C13.lifetime", key)
+                else:
+                    ctx.fail("C13.lifetime", key, "gc wrapper is not `holder[...] = ffi.gc(ptr, free)` with the holder taken from the structure's weak-key entry: the array's lifetime is not the structure's")
+            elif last in ("release", "free") and not t.startswith(("lock", "self.lock")) and "lock" not in t.lower():
+                ctx.instance("C13.lifetime")
+                ctx.fail("C13.lifetime", f"{rel}:{u(call)[:70]}", "memory is released eagerly here: a structure (or a second Tensor built on it) that is still referenced is left with dangling / NULL arrays")
+            elif last in ("finalize",) and ("weakref" in t or t == "finalize"):
+                ctx.instance("C13.lifetime")
+                ctx.fail("C13.lifetime", f"{rel}:{u(call)[:70]}", "a weakref.finalize callback ties a release to another object's death instead of the structure's")
+            elif t in ("atexit.register",):
+                ctx.instance("C13.lifetime")
+                ctx.fail("C13.lifetime", f"{rel}:{u(call)[:70]}", "an exit hook in the tensor layer")
+        # the holder's wrappers are never dropped early
+        for st in ast.walk(f.node):
+            drops = []
+            if isinstance(st, ast.Delete):
+                drops = [u(x) for x in st.targets if "memory_holder" in u(x) or "global_weakkeydict" in u(x)]
+            if isinstance(st, ast.Call) and isinstance(st.func, ast.Attribute) and st.func.attr in ("pop", "clear", "popitem") and ("memory_holder" in u(st.func.value) or "global_weakkeydict" in u(st.func.value)):
+                drops = [u(st)]
+            for d in drops:
+                ctx.instance("C13.lifetime")
+                ctx.fail("C13.lifetime", f"{rel}:{d[:70]}", "a gc wrapper is dropped from the holder: its destructor frees the array while the structure lives")
+    if n_gc < 4:
+        raise AnalysisError(f"only {n_gc} ffi.gc sites found (anchor vanished)")
+
+
 # ------------------------------------------------------------------------------------------------
 # C14
 # ------------------------------------------------------------------------------------------------
